@@ -184,18 +184,33 @@ Theorem C10_temporary_restored : forall (E : env) (cf : cfg (eF E)) fuel n take_
   list_sel dt -> list_sel dv -> list_sel dvn ->
   opt_step E cf fuel n take_best (mkArgs None None None dt dv dvn) b s = Ok s' ->
   (forall i f0, nth_error (va s) i = Some f0 ->
-     nth_error (va s') i = Some (if hits_opt (c_vtag cf) dv i || hits_opt (c_vname cf) dvn i then true else f0)) /\
+     nth_error (va s') i = Some (if hits_opt E (c_vtag cf) dv i || hits_opt E (c_vname cf) dvn i then true else f0)) /\
   (forall i f0, nth_error (ta s) i = Some f0 ->
-     nth_error (ta s') i = Some (if hits_opt (c_ttag cf) dt i then true else f0)).
+     nth_error (ta s') i = Some (if hits_opt E (c_ttag cf) dt i then true else f0)).
 Proof. exact temporary_restored. Qed.
 Print Assumptions C10_temporary_restored.
+
+(* ---- string selectors ----------------------------------------------------------------------
+   A string entry of enable()/disable() and of step()'s enable_*/disable_* arguments is a
+   regular expression matched with re.fullmatch against the TAG (`target`, `vary`) or the NAME
+   (`vary_name`) of each element; [e_match E pattern string] is that verdict (an oracle
+   computed independently by the harness), [hits E attr l i] says whether entry list l names
+   position i (an integer entry names its index, a string entry every position whose
+   attribute fully matches).  Applying a list selector changes exactly the positions it
+   names; C10_inactive_unchanged and C10_temporary_restored above are stated over the flags
+   computed through this selector layer. *)
+Theorem C10_selection_full_match : forall (E : env) attr st l flags i b,
+  nth_error flags i = Some b ->
+  nth_error (set_flags E attr st (Some (SList l)) flags) i = Some (if hits E attr l i then st else b).
+Proof. intros E attr st l. exact (set_flags_list E attr st l). Qed.
+Print Assumptions C10_selection_full_match.
 
 (* ---- non-vacuity ------------------------------------------------------------------------- *)
 Definition xenv : env :=
   mkEnv Qc 0%Qc 1%Qc (Q2Qc (1 # 2)) Qcplus Qcminus Qcmult Qcdiv qabs qltb (fun a b => negb (qltb b a))
         0%Qc (Q2Qc 10) (Q2Qc 100) 0%Qc (Q2Qc (-1000)) (Q2Qc 1000)
         (fun k => Some (k ++ k)) (fun y => fold_right (fun a acc => (a * a + acc)%Qc) 0%Qc y)
-        (fun m y => Some (map (fun _ => 1%Qc) m)) (fun j _ _ _ _ => j) (fun x => x).
+        (fun m y => Some (map (fun _ => 1%Qc) m)) (fun j _ _ _ _ => j) (fun x => x) N.eqb.
 (* one knob limited below only, limits = (-3, None), with max_step 1/2, two targets *)
 Definition xcfg : cfg Qc :=
   mkCfg [1%Qc] [Some (Some (Q2Qc (-3)), None)] [1%Qc] [Some (Q2Qc (1 # 2))] [0%N] [0%N]
